@@ -913,6 +913,18 @@ def check_read_until_full(ctx, rep, fs, fa):
                 ok = done(S)
                 rep.ob('C11.R8', fs, 'loop-exit-only-at-eof-or-full', ok, '' if ok else 'the read loop is left towards deserialize without a 0-byte read or a full buffer: %s' % show_facts(S))
     rep.count_floor('C11.R8', 'exits of the read loop towards deserialize', n, 1)
+    # progress: a read of 0 bytes ends the loop (a stream shorter than the buffer would otherwise spin forever)
+    eof_exit = False
+    for x in sorted(body):
+        for (y, lab) in fa.cfg.succ[x]:
+            if y in body:
+                continue
+            for S in pf.on_edge(x, y, lab):
+                for f in S:
+                    if (f[0] == 'cmp' and f[1] == 'eq' and f[5] is True and ((is_read_result(f[2]) and is_const(f[3], 0)) or (is_read_result(f[3]) and is_const(f[2], 0)))) or \
+                            (f[0] == 'eqc' and is_read_result(f[1]) and str(f[2]) in ('0', '[0]', '(0,)')):
+                        eof_exit = True
+    rep.ob('C11.R8', fs, 'loop-ends-at-end-of-stream', eof_exit, 'an exit of the read loop is taken when read() returned 0')
     # the fill count starts at zero: the first read goes to the start of the buffer and buf[..count] is exactly what was read
     accs = 0
     for l, ds in fa.defs().items():
